@@ -36,14 +36,17 @@ def dedup_key_rule(R, prefix):
                     elts[i] = vals[0][1]
     params = q.param_names(ck.node)[1:3]
     has_args = elts is not None and any(isinstance(e, ast.Call) and q.call_name(e) == "self.keygetter" and [q.src(a) for a in e.args] == params for e in elts)
-    has_thread = elts is not None and any(isinstance(e, ast.Call) and q.call_name(e) in ("threading.current_thread", "threading.get_ident", "current_thread", "get_ident") for e in elts)
+    # the Thread object, not its ident: the operating system hands the ident of a finished thread to a new one, which would then
+    # find the dead thread's unfinished tasks under its own key
+    has_thread = elts is not None and any(isinstance(e, ast.Call) and q.call_name(e) in ("threading.current_thread", "current_thread") and not e.args for e in elts)
     has_fn = elts is not None and any(q.src(e) in ("id(self.fn)", "self.fn", "id(self)", "self") for e in elts)
     R.check(has_args, prefix, ck.qualname + ":args", site, "the key contains the key getter's result for this call's (args, kwargs)",
             "the key does not contain keygetter(%s)" % ", ".join(params))
     R.check(has_thread, prefix, ck.qualname + ":thread", site,
             "the key contains the calling thread, evaluated when the key is built",
-            "the key's thread component is not evaluated at call time (`%s`): calls from another thread share the in-flight task of the thread that "
-            "created the decorator - the task is then run on the wrong thread's scheduler" % q.src(v)[:80])
+            "the key has no component that identifies the calling thread for as long as the entry lives (`%s`; threading.current_thread() evaluated "
+            "at call time - an ident is reused after the thread exits, a value captured earlier belongs to another thread): calls from another "
+            "thread get this thread's in-flight task, which is then run on the wrong scheduler" % q.src(v)[:80])
     R.check(has_fn, prefix, ck.qualname + ":function", site,
             "the key contains the identity of the wrapped function (id(self.fn))",
             "the key identifies the function by something other than its identity (`%s`): different functions with equal names share tasks" % q.src(v)[:80])
@@ -125,6 +128,14 @@ def run(R):
         for n, c in kit.call_sites(asy, lambda c: q.call_name(c) == "%s.on_computed.subscribe" % tv.id):
             if c.args and isinstance(c.args[0], ast.Name):
                 cbs.append(c.args[0].id)
+        for n, c in kit.call_sites(asy, lambda c: q.call_name(c) == "%s.on_computed.subscribe" % tv.id):
+            if c.args and not isinstance(c.args[0], ast.Name):
+                body = c.args[0].body if isinstance(c.args[0], ast.Lambda) else None
+                okl = body is not None and isinstance(body, ast.Call) and q.call_name(body) == "self.tasks.pop" and body.args and q.src(body.args[0]) == key and len(body.args) == 2
+                R.check(okl, "C12.PAIR", asy.qualname + ":callback", R.site(asy, c),
+                        "the completion callback removes exactly the key the task was stored under",
+                        "the completion callback (`%s`) does not remove the key the task was stored under (a key recomputed when the task completes - on "
+                        "another thread, or from arguments the body changed - need not be the stored one: the finished task stays in the table)" % q.src(c.args[0])[:70])
         for cbn in cbs:
             cbf = [f for f in asy.nested.values() if f.node.name == cbn]
             R.need(cbf, "idiom: completion callback %s is not a local function" % cbn)
